@@ -5,14 +5,17 @@ STACK, caches, grid back-up stack, definition-level assigned flags, serial count
 Tie (correspondence): nested retainState scopes (depth <= 4) on random objects of the smallest test reactor
 (plus added assembly copies) with plain parameter assignments of every value kind (scalar / array / list /
 dict / str / None), random keep-sets, cache entries, hex-grid pitch changes, deepcopy / pickle points and
-makeParametersReadOnly; after every step the canonical dump of the touched objects (every parameter value
+makeParametersReadOnly on reactors whose ex-core systems (spent fuel pool filled by sfp.add and by tracked discharges, a
+second ex-core structure) hold assemblies; after every step the canonical dump of the touched objects (every parameter value
 as an equality code, collection `assigned`, back-up depth, cache probes, grid triple, serial, read-only)
 is compared with the model, and at the end the definition-level flags.
 Oracle (independent of the model): snapshot comparison of every parameter of every object before / at
 the end of / after each scope (kept parameters keep the inner value, all others the entry value, objects
 outside the scope untouched), caches, grid (unitSteps, bounds, offset), an API-level stream
 (setNumberDensity, setTemperature, heights + calculateZCoords, changePitch), serial uniqueness /
-freshness, copy equality and independence, read-only refusal through every setter.
+freshness, copy equality and independence, read-only refusal on EVERY object reachable by a naive walk from the reactor
+(all systems) through item / attribute / update / unlock / number-density API routes, after makeParametersReadOnly and
+after a database round trip through Database.loadReadOnly.
 """
 import copy
 import hashlib
@@ -34,8 +37,10 @@ PARTIAL = ("in-place mutations of parameter values (`pokeP`) are modelled and ti
            "are not modelled; "
            "values are equality codes: what pickle/deepcopy do to a leaf value is a parameter of the model (checked "
            "on the implementation: value canonical forms before/after); the API-level "
-           "mutators (setNumberDensity, setTemperature, ...) are covered by the implementation-side oracle; material "
-           "caches oracle-only; pickle and DB load preserve serials by design (uniqueness proved per tree, i.e. when the "
+           "mutators (setNumberDensity, setTemperature, ...) are covered by the implementation-side oracle; a material "
+           "is modelled as an object without definitions and grid (its cache chain only; the parameter frame the model also "
+           "pushes for it is unobservable); makeParametersReadOnly is modelled as the walk over the child lists the harness "
+           "reads off the real reactor (all systems), Database.loadReadOnly is oracle-only; pickle and DB load preserve serials by design (uniqueness proved per tree, i.e. when the "
            "original is discarded); MPI not covered")
 ASSUMPTIONS = [
     "pickle.loads(pickle.dumps(state)) and copy.deepcopy return values equal to the original leaf values "
@@ -54,7 +59,54 @@ def fixture():
         with common.scratch_dir(), common.quiet():
             o, r = loadTestReactor(os.path.join(TEST_ROOT, "smallestTestReactor"), inputFileName="armiRunSmallest.yaml")
         _FIX["r"] = r
+        _FIX["o"] = o
     return _FIX["r"]
+
+
+def populate_excore(ctx, rng, r):
+    """Fill the ex-core systems of a reactor: assemblies (with their blocks and components) in the spent fuel pool --
+    put there directly (`sfp.add`) and by a discharge from the core with assembly tracking on -- and, sometimes, a second
+    ex-core structure holding an assembly.  Returns the objects now held outside the core."""
+    from armi.reactor import grids
+    from armi.reactor.excoreStructure import ExcoreStructure
+
+    sfp = next((c for c in r if type(c).__name__ == "SpentFuelPool"), None)
+    if sfp is None:
+        return []
+    if r.excore.get("sfp") is None:
+        r.excore["sfp"] = sfp            # (copy.deepcopy of a Reactor does not carry the excore registry over)
+    held = []
+    for k in range(rng.randint(1, 2)):
+        a = copy.deepcopy(r.core[0])
+        a.makeUnique()
+        if rng.random() < 0.5:
+            sfp.add(a)
+            ctx.count("ex-core: assembly put into the spent fuel pool (sfp.add)")
+        else:
+            g = r.core.spatialGrid
+            free = [(i, j) for i in range(0, 4) for j in range(-1, 3) if g[i, j, 0] not in r.core.childrenByLocator
+                    and g.locatorInDomain(g[i, j, 0], symmetryOverlap=True)]
+            r.core.add(a, r.core.spatialGrid[free[0][0], free[0][1], 0])
+            track = r.core._trackAssems
+            r.core._trackAssems = True
+            try:
+                r.core.removeAssembly(a, discharge=True)
+            finally:
+                r.core._trackAssems = track
+            ctx.count("ex-core: assembly discharged from the core into the spent fuel pool (trackAssems)")
+        if a.parent is sfp:
+            held.append(a)
+    if rng.random() < 0.35:
+        ivs = ExcoreStructure("ivs")
+        ivs.spatialGrid = grids.CartesianGrid.fromRectangle(20.0, 20.0)
+        ivs.spatialGrid.armiObject = ivs
+        r.add(ivs)
+        a = copy.deepcopy(r.core[0])
+        a.makeUnique()
+        ivs.add(a, ivs.spatialGrid[rng.randint(0, 2), 0, 0])
+        held.append(a)
+        ctx.count("ex-core: second ex-core structure holding an assembly")
+    return held
 
 
 def canon(v):
@@ -72,12 +124,15 @@ def canon(v):
     if isinstance(v, (int, np.integer)):
         return f"i{int(v)}"
     if isinstance(v, (float, np.floating)):
-        return f"f{float(v)!r}"
+        # (a signed zero is the same value: -0.0 == 0.0 for `!=`, np.array_equal and every consumer)
+        return f"f{float(v) + 0.0!r}"
     if isinstance(v, str):
         return "s" + v
     if isinstance(v, np.ndarray):
         if v.dtype == object:
             return "A(" + ",".join(canon(x) for x in v.tolist()) + ")"
+        if v.dtype.kind in "fc":
+            v = v + 0.0          # -0.0 -> 0.0
         return f"a{v.dtype.str}{v.shape}" + hashlib.sha1(np.ascontiguousarray(v).tobytes()).hexdigest()[:16]
     if isinstance(v, (list, tuple)):
         return ("l[" if isinstance(v, list) else "t[") + ",".join(canon(x) for x in v) + "]"
@@ -108,6 +163,7 @@ class Session:
         self.desync = False
         self.nested_names = set()
         self.alias_ids = set()
+        self.mat_rng = random.Random(seq_seed ^ 0x5EED)
         self.emit("reset", "ok")
 
     def case(self):
@@ -192,6 +248,38 @@ class Session:
     def lines(self, objs):
         return ";".join(self.obj_line(o) for o in objs)
 
+    def mat_line(self, m):
+        ck = "[" + ",".join("_" if f"k{k}" not in m.cached else str(self.code(m.cached[f"k{k}"])) for k in range(3)) + "]"
+        return f"c{ck} cb{self.chain_depth(getattr(m, '_backupCache', None), last=True)}"
+
+    def mlines(self, ms):
+        return ";".join(self.mat_line(m) for m in ms)
+
+    def mats_of(self, objs):
+        """the registered materials of the objects, in StateRetainer order"""
+        return [o.material for o in objs if getattr(o, "material", None) is not None and id(o.material) in self.ids]
+
+    def register_mats(self, objs):
+        """materials are model objects without parameter definitions and grid (only their cache is observable)"""
+        n = 0
+        for o in objs:
+            m = getattr(o, "material", None)
+            if m is None or id(m) in self.ids or not hasattr(m, "_setCache"):
+                continue
+            # (a sample: every model object lengthens the interpreter's look-up chains of whole-reactor scopes; materials
+            # left out are never given probe entries by this session)
+            if n >= 1 and self.mat_rng.random() > 0.3:
+                continue
+            self.register(m)
+            self.batch["req"].append("create [] _")
+            self.batch["impl"].append(None); self.batch["cases"].append(self.case())
+            for k in range(3):
+                if f"k{k}" in m.cached:
+                    self.batch["req"].append(f"mcache {self.ids[id(m)]} {k} {self.code(m.cached[f'k{k}'])}")
+                    self.batch["impl"].append(None); self.batch["cases"].append(self.case())
+            n += 1
+        return n
+
     def scan_alias(self, group):
         """ids of container values held by more than one (object, parameter) of the group"""
         seen = {}
@@ -223,6 +311,7 @@ class Session:
             self.batch["impl"].append(None); self.batch["cases"].append(self.case())
             self.batch["req"].append(f"serial {self.ids[id(o)]} {o.p.serialNum}")
             self.batch["impl"].append(None); self.batch["cases"].append(self.case())
+        self.register_mats(walk)
         self.batch["req"].append("dsetall [" + ",".join(str(pd.assigned) for pd in self.defs) + "]")
         self.batch["impl"].append(None); self.batch["cases"].append(self.case())
         self.sync_counter()
@@ -549,6 +638,13 @@ def seed_nested(ses, objs):
 def do_cache(ses, t):
     k = ses.rng.randint(0, 2)
     v = ses.rng.choice([1.5, "c", [1, 2]])
+    m = getattr(t, "material", None)
+    if m is not None and id(m) in ses.ids and ses.rng.random() < 0.8:
+        m._setCache(f"k{k}", v)
+        ses.log.append(f"cache material-of-{ses.ids[id(t)]} k{k}")
+        ses.emit(f"mcache {ses.ids[id(m)]} {k} {ses.code(v)}", "ok " + ses.mat_line(m))
+        ses.ctx.count("cache entry on a component's material")
+        return
     t._setCache(f"k{k}", v)
     ses.log.append(f"cache {ses.ids[id(t)]} k{k}")
     ses.emit(f"cache {ses.ids[id(t)]} {k} {ses.code(v)}", "ok " + ses.obj_line(t))
@@ -727,6 +823,8 @@ def scope(ses, allobjs, depth, root=None, keep=None, script=None):
     root = root if root is not None else rng.choice(allobjs)
     objs = [root] + list(root.iterChildren(deep=True))
     ids = "[" + ",".join(str(ses.ids[id(o)]) for o in objs) + "]"
+    mats = ses.mats_of(objs)
+    mids = "[" + ",".join(str(ses.ids[id(m)]) for m in mats) + "]"
     pool = [pd for o in objs for pd in ses.pdefs(o) if pd.name not in ses.skipnames and default_setter(pd)
             and pd.name not in ses.nested_names]
     if keep is None:
@@ -742,7 +840,7 @@ def scope(ses, allobjs, depth, root=None, keep=None, script=None):
     try:
         with root.retainState(keep):
             phase[0] = "body"
-            ses.emit(f"enter {ids}", "ok " + ses.lines(objs))
+            ses.emit(f"enterm {ids} {mids}", "ok " + ses.lines(objs) + " | " + ses.mlines(mats))
             for o in objs:
                 if any(isinstance(k, str) and k.startswith("k") for k in o.cached):
                     ctx.fail("cache-visible-inside-scope", "the cache starts empty inside a scope", ses.case(), observed=ses.ids[id(o)])
@@ -779,7 +877,7 @@ def scope(ses, allobjs, depth, root=None, keep=None, script=None):
         raise _Desync()
     ses.log.append(f"exit {ses.ids[id(root)]}")
     kid = "[" + ",".join(str(ses.did(pd)) for pd in keep) + "]"
-    ses.emit(f"exit {ids} {kid}", "ok " + ses.lines(objs))
+    ses.emit(f"exitm {ids} {mids} {kid}", "ok " + ses.lines(objs) + " | " + ses.mlines(mats))
     after = snapshot(ses, allobjs)
     ctx.count(f"scope depth {depth}")
     inscope = {id(o) for o in objs}
@@ -898,7 +996,7 @@ def do_copies(ses, allobjs, root=None):
         root = rng.choice([o for o in allobjs if type(o).__name__ != "Reactor" and not hasattr(o, "material")] or allobjs)
     src = preorder(root)
     how = rng.choice(["deepcopy", "pickle"])
-    live = {o.p.serialNum for o in ses.objs}
+    live = {o.p.serialNum for o in ses.objs if hasattr(o, "p")}
     before_counter = pc.GLOBAL_SERIAL_NUM
     with common.quiet():
         cp = copy.deepcopy(root) if how == "deepcopy" else pickle.loads(pickle.dumps(root))
@@ -922,6 +1020,8 @@ def do_copies(ses, allobjs, root=None):
     for o in new:
         ses.batch["req"].append(f"serial {ses.ids[id(o)]} {o.p.serialNum}")
         ses.batch["impl"].append(None); ses.batch["cases"].append(ses.case())
+    if ses.register_mats(new):
+        ses.sync_counter()
     # oracle
     for a, b in zip(src, new):
         sa = {pd.name: canon(ses.val(a, pd)) for pd in a.p.paramDefs if pd.name != "serialNum"}
@@ -961,6 +1061,114 @@ def do_copies(ses, allobjs, root=None):
     return new
 
 
+def value_kind(v):
+    from armi.reactor.parameters import NoDefault
+
+    if v is NoDefault:
+        return "unset"
+    if v is None:
+        return "none"
+    if isinstance(v, (bool, np.bool_, int, np.integer, float, np.floating)):
+        return "scalar"
+    if isinstance(v, (np.ndarray, list, tuple)):
+        return "array"
+    if isinstance(v, dict):
+        return "dict"
+    if isinstance(v, str):
+        return "str"
+    return "other"
+
+
+def where_of(o, r):
+    """which reactor-level system holds the object (naive parent walk)"""
+    x, top = o, None
+    while x is not None and x is not r:
+        top, x = x, x.parent
+    return "reactor" if top is None else type(top).__name__
+
+
+def readonly_oracle(ctx, rng, r, case, attempt_hook=None, per_object=3):
+    """The read-only clause on a reactor that has just been made read-only: EVERY object reachable by a naive walk of
+    the child lists from the reactor (all systems: core, spent fuel pool, other ex-core structures) refuses assignments
+    of several parameter kinds through every assignment route, and no value changes."""
+    from armi.reactor.parameters import NoDefault
+
+    objs = preorder(r)
+    snap = {id(o): {pd.name: canon(getattr(o.p, pd.fieldName, NoDefault)) for pd in o.p.paramDefs} for o in objs}
+    refused = 0
+    for t in objs:
+        where = where_of(t, r)
+        if not t.p.readOnly:
+            ctx.fail("readonly-object-left-writable", "after makeParametersReadOnly every object of the reactor (all systems) is read-only",
+                     case | {"type": type(t).__name__, "system": where, "name": getattr(t, "name", None)})
+        pds = [pd for pd in t.p.paramDefs if pd.name != "serialNum"]
+        bykind = {}
+        for pd in pds:
+            bykind.setdefault(value_kind(getattr(t.p, pd.fieldName, NoDefault)), []).append(pd)
+        kinds = rng.sample(sorted(bykind), min(len(bykind), per_object))
+        tries = [(k, rng.choice(bykind[k])) for k in kinds] + [("unlock", None)]
+        for kind, pd in tries:
+            how = "unlock" if pd is None else rng.choice(["item", "attr", "update"])
+            if pd is not None:
+                cur = getattr(t.p, pd.fieldName, NoDefault)
+                v = new_value(rng, cur if type(cur).__name__ != "_DimensionLink" else 1.0)
+                if v is None and cur is None:
+                    v = 1.25
+            try:
+                if how == "item":
+                    t.p[pd.name] = v
+                elif how == "attr":
+                    setattr(t.p, pd.name, v)
+                elif how == "update":
+                    t.p.update({pd.name: v})
+                else:
+                    t.p.readOnly = False
+                raised = False
+            except Exception:
+                raised = True
+            ctx.count(f"read-only attempt: {where} / {kind} via {how}: {'refused' if raised else 'ACCEPTED'}")
+            if not raised:
+                ctx.fail("readonly-assignment-accepted", "after makeParametersReadOnly every parameter assignment is refused",
+                         case | {"type": type(t).__name__, "system": where, "param": None if pd is None else pd.name,
+                                 "value_kind": kind, "how": how})
+            else:
+                refused += 1
+            if attempt_hook is not None and (how in ("item", "attr") or pd is None):
+                attempt_hook(t, pd, None if pd is None else v, raised)
+    # in-place API routes on components (every system)
+    comps = [o for o in objs if hasattr(o, "setNumberDensity") and hasattr(o, "material") and len(o.p.numberDensities or {})]
+    bysys = {}
+    for c in comps:
+        bysys.setdefault(where_of(c, r), []).append(c)
+    for where, cs in sorted(bysys.items()):
+        for c in rng.sample(cs, min(len(cs), 3)):
+            nuc = sorted(c.p.numberDensities)[0]
+            old = c.getNumberDensity(nuc)
+            for call in ("setNumberDensity", "updateNumberDensities"):
+                try:
+                    if call == "setNumberDensity":
+                        c.setNumberDensity(nuc, old * 2.0 + 1e-3)
+                    else:
+                        c.updateNumberDensities({nuc: old * 3.0 + 1e-3})
+                    raised = False
+                except Exception:
+                    raised = True
+                ctx.count(f"read-only attempt: {where} / {call}: {'refused' if raised else 'ACCEPTED'}")
+                if c.getNumberDensity(nuc) != old:
+                    ctx.fail("readonly-setNumberDensity-changes-value", "no value changes in a read-only reactor",
+                             case | {"object": type(c).__name__, "system": where, "call": f"{call}({nuc!r}, ...)", "raised": raised},
+                             observed=c.getNumberDensity(nuc), expected=old)
+                    c.p.numberDensities[nuc] = old      # (in place: keep the snapshot comparison below about other things)
+    for o in objs:
+        now = {pd.name: canon(getattr(o.p, pd.fieldName, NoDefault)) for pd in o.p.paramDefs}
+        if now != snap[id(o)]:
+            bad = [k for k in now if now[k] != snap[id(o)].get(k)]
+            ctx.fail("readonly-value-changed", "no value changes in a read-only reactor",
+                     case | {"type": type(o).__name__, "system": where_of(o, r), "params": bad[:5]})
+    ctx.count("read-only assignments refused", refused)
+    return objs
+
+
 def do_readonly(ses, r, allobjs):
     from armi.reactor import reactorParameters
 
@@ -969,63 +1177,69 @@ def do_readonly(ses, r, allobjs):
     objs = preorder(r)
     ses.log.append("makeParametersReadOnly")
     ses.emit(f"readonly [{','.join(str(ses.ids[id(o)]) for o in objs)}]", "ok " + ses.lines(objs))
-    before = snapshot(ses, objs)
-    refused = 0
-    for _ in range(40):
-        t = rng.choice(objs)
-        pd = rng.choice([pd for pd in ses.pdefs(t) if pd.name != "serialNum"])
-        cur = ses.val(t, pd)
-        v = new_value(rng, cur if type(cur).__name__ != "_DimensionLink" else 1.0)
-        how = rng.choice(["item", "attr", "update", "unlock"])
-        try:
-            if how == "item":
-                t.p[pd.name] = v
-            elif how == "attr":
-                setattr(t.p, pd.name, v)
-            elif how == "update":
-                t.p.update({pd.name: v})
-            else:
-                t.p.readOnly = False
-            raised = False
-        except RuntimeError:
-            raised = True
-        except Exception:
-            raised = True
-        if not raised:
-            ctx.fail("readonly-assignment-accepted", "after makeParametersReadOnly every parameter assignment is refused",
-                     ses.case() | {"object": ses.ids[id(t)], "type": type(t).__name__, "param": pd.name, "how": how})
+    # the model's walk over the child lists: the same objects must come out read-only
+    kids = ";".join(f"{ses.ids[id(o)]}:" + ",".join(str(ses.ids[id(c)]) for c in o) for o in objs if len(o))
+    ses.emit(f"readonlytree {ses.ids[id(r)]} {kids or '-'}", "ok " + " ".join(
+        f"{ses.ids[id(o)]}{'T' if o.p.readOnly else 'F'}" for o in sorted(objs, key=lambda o: ses.ids[id(o)])))
+
+    def hook(t, pd, v, raised):
+        if ses.mat_rng.random() < 0.5:
+            return      # (the oracle judges every attempt; the model is asked about a sample of them)
+        if pd is None:
+            ses.emit(f"unlock {ses.ids[id(t)]}", ("reject " if raised else "ok ") + ses.obj_line(t))
         else:
-            refused += 1
-        if how in ("item", "attr"):
             ses.emit(f"set {ses.ids[id(t)]} {ses.did(pd)} {ses.code(v)}",
                      ("reject " if raised else "ok ") + ses.obj_line(t) + f" d{pd.assigned}")
-    if snapshot(ses, objs) != before:
-        ctx.fail("readonly-value-changed", "no value changes in a read-only reactor", ses.case())
-    # a scope cannot be opened either (the back-up itself is an assignment)
-    try:
-        with r.retainState():
-            pass
-        opened = True
-    except RuntimeError:
-        opened = False
-    if not opened:
-        ses.emit(f"enter [{','.join(str(ses.ids[id(o)]) for o in objs)}]", "reject")
-    ctx.count("read-only assignments refused", refused)
-    # API-level setter on a read-only component (run last: it may leave the value changed)
-    comps = [o for o in objs if hasattr(o, "setNumberDensity") and hasattr(o, "material") and len(o.p.numberDensities or {})]
-    if comps:
-        c = rng.choice(comps)
-        nuc = sorted(c.p.numberDensities)[0]
-        old = c.getNumberDensity(nuc)
+
+    readonly_oracle(ctx, rng, r, ses.case(), attempt_hook=hook, per_object=2)
+    # a scope cannot be opened either (the back-up itself is an assignment) -- on the reactor or on any system / ex-core object
+    for root in [r] + rng.sample(objs, min(len(objs), 3)):
         try:
-            c.setNumberDensity(nuc, old * 2.0 + 1e-3)
-            raised = False
-        except Exception:
-            raised = True
-        if c.getNumberDensity(nuc) != old:
-            ctx.fail("readonly-setNumberDensity-changes-value", "no value changes in a read-only reactor",
-                     {"object": type(c).__name__, "call": f"setNumberDensity({nuc!r}, ...)", "raised": raised},
-                     observed=c.getNumberDensity(nuc), expected=old)
+            with root.retainState():
+                pass
+            opened = True
+        except RuntimeError:
+            opened = False
+        if not opened:
+            sub = [root] + list(root.iterChildren(deep=True))
+            ses.emit(f"enter [{','.join(str(ses.ids[id(o)]) for o in sub)}]", "reject")
+
+
+def readonly_stream(ctx, seq_seed, route=None):
+    """Oracle only: a reactor whose ex-core systems HOLD assemblies is made read-only -- by makeParametersReadOnly or by
+    a database round trip through Database.loadReadOnly -- and every object of every system is probed."""
+    from armi.bookkeeping.db import Database
+    from armi.reactor import reactorParameters
+
+    rng = random.Random(seq_seed)
+    route = route or rng.choice(["makeParametersReadOnly", "loadReadOnly"])
+    case = {"seq_seed": seq_seed, "stream": "readonly", "route": route}
+    with common.scratch_dir(), common.quiet():
+        r = copy.deepcopy(fixture())
+        for k in range(rng.randint(0, 1)):
+            a2 = copy.deepcopy(r.core[0])
+            a2.makeUnique()
+            r.core.add(a2, r.core.spatialGrid[k + 1, 0, 0])
+        held = populate_excore(ctx, rng, r)
+        if route == "loadReadOnly":
+            for c in list(r):
+                if type(c).__name__ == "ExcoreStructure":
+                    r.remove(c)          # (only the blueprint-defined systems are part of a database)
+                    r.excore.pop("ivs", None)
+            db = Database("readonly.h5", "w")
+            db.open()
+            db.writeInputsToDB(_FIX["o"].cs)
+            db.writeToDB(r)
+            db.close(True)
+            with Database("readonly.h5", "r") as d:
+                r = d.loadReadOnly(int(r.p.cycle), int(r.p.timeNode))
+        else:
+            reactorParameters.makeParametersReadOnly(r)
+        nheld = sum(1 for o in preorder(r) if where_of(o, r) != "Core" and o is not r)
+        ctx.count(f"read-only stream via {route}")
+        ctx.count("read-only stream: objects held outside the core", nheld)
+        readonly_oracle(ctx, rng, r, case | {"objects_outside_core": nheld}, per_object=3)
+    ctx.case(("readonly", seq_seed), nontrivial=nheld > 1)
 
 
 def _api_stream(ctx, seq_seed):
@@ -1197,11 +1411,13 @@ def _run_session(ctx, seq_seed, batch, nscopes):
             a2 = copy.deepcopy(r.core[0])
             a2.makeUnique()
             r.core.add(a2, r.core.spatialGrid[k + 1, 0, 0])
+        if rng.random() < 0.7:
+            populate_excore(ctx, rng, r)
     seed_nested(ses, preorder(r))
     ses.mirror(r)
     rack = make_rack(rng)
     ses.mirror(rack)
-    allobjs = list(ses.objs)
+    allobjs = [o for o in ses.objs if hasattr(o, "p")]
     try:
         with common.quiet():
             for _ in range(nscopes):
@@ -1230,7 +1446,7 @@ def _run_session(ctx, seq_seed, batch, nscopes):
                 allobjs = allobjs + do_copies(ses, allobjs, root=up)
             ses.emit(f"dump [{','.join(str(ses.ids[id(o)]) for o in allobjs)}]", ses.lines(allobjs))
             ses.ddump()
-            if rng.random() < 0.5:
+            if rng.random() < 0.6:
                 do_readonly(ses, r, allobjs)
     except _Desync:
         ctx.count("session ended early (custom setter side effect)")
@@ -1334,6 +1550,10 @@ def run(ctx):
         run_session(ctx, ctx.rng.randrange(1 << 40), batch, ctx.rng.randint(1, ctx.pick(5, 6)))
     for _ in range(ctx.pick(15, 200)):
         api_stream(ctx, ctx.rng.randrange(1 << 40))
+    for k in range(ctx.pick(6, 60)):
+        sd = ctx.rng.randrange(1 << 40)
+        route = ["makeParametersReadOnly", "loadReadOnly"][k % 2]
+        _guard(ctx, "readonly-session", {"seq_seed": sd, "stream": "readonly", "route": route}, lambda: readonly_stream(ctx, sd, route))
     # last: the raising scope exit leaves the (process-global) definition back-up chains unbalanced
     _guard(ctx, "excluded-points", {"stream": "excluded"}, lambda: excluded_points(ctx))
     model = lean_run("Params", batch["req"])
@@ -1366,8 +1586,10 @@ def run(ctx):
         ctx.samples.append({"request": batch["req"][-1][:200], "model": model[-1][:300], "impl": (batch["impl"][-1] or "")[:300]})
     ctx.rule = ("seeded sessions on the smallest test reactor (+0-2 added assembly copies): nested retainState scopes (depth <= 4) "
                 "on random objects, plain assignments of every value kind, random keep-sets, cache entries, hex pitch changes, "
-                "deepcopy/pickle points, makeParametersReadOnly; evaluations = compared protocol lines (one canonical dump of the "
-                "touched objects per step); plus API-level oracle sessions; distinct = sessions")
+                "cache entries on objects and on component materials, deepcopy/pickle points, makeParametersReadOnly with assemblies "
+                "held by ex-core systems (every reachable object probed); evaluations = compared protocol lines (one canonical dump "
+                "of the touched objects per step); plus API-level oracle sessions and read-only sessions (makeParametersReadOnly / "
+                "Database.loadReadOnly); distinct = sessions")
 
 
 def search(ctx, disagreements, broken):
@@ -1376,10 +1598,20 @@ def search(ctx, disagreements, broken):
     for d in disagreements[:10]:
         if isinstance(d.case, dict) and "seq_seed" in d.case:
             run_session(sub, d.case["seq_seed"], dummy, 8)
-    for _ in range(60):
+    known = {f["key"] for f in common.load_findings()["finding"] if f["property"] == ctx.prop}
+    fresh = lambda: [f for f in sub.failures if f.key not in known]
+    # (stop as soon as a failing input is at hand: the rounds below are there for disagreements that are hard to turn
+    # into one)
+    for k in range(60):
+        if k % 10 == 0 and fresh():
+            return list(sub.failures)
         run_session(sub, sub.rng.randrange(1 << 40), dummy, 6)
-    for _ in range(60):
+    for k in range(60):
+        if k % 10 == 0 and fresh():
+            return list(sub.failures)
         api_stream(sub, sub.rng.randrange(1 << 40))
+    for _ in range(20):
+        readonly_stream(sub, sub.rng.randrange(1 << 40))
     return list(sub.failures)
 
 
@@ -1388,7 +1620,9 @@ def replay(ctx, payload):
     sub = common.Ctx(ctx.prop, "quick", ctx.seed)
     dummy = {"req": [], "impl": [], "cases": [], "mask_serial": set(), "serial_sets": {}}
     fixture()
-    if case.get("stream") == "api":
+    if case.get("stream") == "readonly":
+        readonly_stream(sub, case["seq_seed"], case.get("route"))
+    elif case.get("stream") == "api":
         api_stream(sub, case["seq_seed"])
     elif "seq_seed" in case:
         run_session(sub, case["seq_seed"], dummy, 8)
